@@ -51,6 +51,13 @@ inductive PatternDupRule where
   | other
   deriving Repr, DecidableEq
 
+/-- how MessagePackRpc / MessagePackDocument turn a method name sent as msgpack `bin` into text -/
+inductive BinNameRule where
+  | strictUtf8    -- strict UTF-8; undecodable bytes are a client fault         (good)
+  | lossy         -- undecodable bytes are dropped or replaced: a "closest" name is dispatched
+  | other
+  deriving Repr, DecidableEq
+
 structure Facts11 where
   /-- `spyne.const.REQUEST_SUFFIX` -/
   requestSuffix : Text
@@ -64,6 +71,7 @@ structure Facts11 where
   /-- an unknown name ends in `ResourceNotFoundError` (Client.ResourceNotFound), raised before any user code -/
   emptyIsNotFound : Bool
   patternDup : PatternDupRule
+  binNames : BinNameRule
 
 /-! ## Declarations as written by the user, and what the decorator makes of them -/
 
@@ -308,6 +316,8 @@ inductive Resp where
   | notFound
   /-- an empty handle list was not turned into a fault -/
   | stuck
+  /-- the name could not even be read (undecodable bytes): some other Client.* fault, no user code ran -/
+  | clientFault
   deriving Repr, DecidableEq
 
 /-- `generate_method_contexts` + the transport running every context once -/
